@@ -9,7 +9,7 @@
   c18.ctb      <base|cgs|mks> <system> <x> <unit5> <kind> <size> <writeable>
   c18.cte      <x> <unit5> <kind> <size> <writeable> (E <Err> | U <unit5>) <equiv> <kw,kw|> <selfCoeff bits> <depth>
   c18.setitem  <self unit5> (B | U <unit5>) (- | <Err>)
-  c18.iufunc   <fuel> (N | U <unit6>) <float kind> <float size> <c01.dispatch fields …>
+  c18.iufunc   <fuel> (N | U <unit6>) <float kind> <float size> <c01.dispatch fields …> <out shape;kind;itemsize> <out writeable>
   c18.simplify <unit5>                      → <ok|err:Name> <n effects> <returns self 0|1> <coeff bits> <factors>
   c18.copy.in_units <unit5> <kind> <size> (E <Err> | U <unit5>)            → <ok|err:Name> <n effects>
   c18.copy.in_base  <system> <unit5>                                       → <ok|err:Name> <n effects>
@@ -70,6 +70,9 @@ def ctx (st : DriverState) : Ctx Float :=
       | .ok s => s.asCoeffUnit
       | .error _ => (1, u) }
 
+/-- the variant of the conversion code the live source has (regenerated flags) -/
+def liveFlags : CtuFlags := ⟨C18.ctuUnitsLast, C18.ctuReadonlyGuard, C18.outReadonlyGuard⟩
+
 def orderOf (name : String) : Option (List String) :=
   match name with
   | "convertToUnits" => some C18.convertToUnitsOrder | "convertToBase" => some C18.convertToBaseOrder
@@ -94,7 +97,7 @@ def stepC18 (st : DriverState) (fields : List String) : Option String :=
     let d ← C17Ops.parseDtype k sz
     let w ← parseBool w
     let (tg, _) ← pTarget rest
-    some (runLine (runSteps (convertToUnitsSteps N P st.pre lut em ⟨u, d, w⟩ tg)) x u d)
+    some (runLine (runSteps (convertToUnitsSteps liveFlags N P st.pre lut em ⟨u, d, w⟩ tg)) x u d)
   | ["c18.ctb", kind, sys, x, sc, off, dim, co, fac, k, sz, w] => do
     let bk ← (match kind with | "base" => some BaseKind.base | "cgs" => some .cgs | "mks" => some .mks | _ => none)
     let S ← findSystem Float sys
@@ -102,7 +105,7 @@ def stepC18 (st : DriverState) (fields : List String) : Option String :=
     let u ← parseUnitV sc off dim co fac
     let d ← C17Ops.parseDtype k sz
     let w ← parseBool w
-    some (runLine (runSteps (convertToBaseSteps N P st.pre lut em S bk ⟨u, d, w⟩)) x u d)
+    some (runLine (runSteps (convertToBaseSteps liveFlags N P st.pre lut em S bk ⟨u, d, w⟩)) x u d)
   | "c18.cte" :: x :: sc :: off :: dim :: co :: fac :: k :: sz :: w :: rest => do
     let x ← fb x
     let u ← parseUnitV sc off dim co fac
@@ -113,7 +116,7 @@ def stepC18 (st : DriverState) (fields : List String) : Option String :=
     | [eq, kw, sco, depth] =>
       let sco ← fb sco
       let depth ← depth.toNat?
-      some (runLine (runSteps (convertToEquivalentSteps N P st.pre lut em equivalences ⟨u, d, w⟩
+      some (runLine (runSteps (convertToEquivalentSteps liveFlags N P st.pre lut em equivalences ⟨u, d, w⟩
         { convUnit := tg, name := eq, kwargs := pKw kw, selfCoeff := sco, depth := depth,
           reenters := C18.fixupReenters, powRefuses := powRefuses })) x u d)
     | _ => none
@@ -143,7 +146,8 @@ def stepC18 (st : DriverState) (fields : List String) : Option String :=
       let (ins, rest) ← pOperands nin rest
       let (out, rest) ← pOut rest
       match rest with
-      | [ax, ke, ksh, od] =>
+      | [ax, ke, ksh, od, ow] =>
+        let ow ← parseBool ow
         let ax : Option (Option Nat) := if ax == "-" then some none else ax.toNat?.map some
         let ax ← ax
         let ke : Option (Option Err) := if ke == "-" then some none else (pErrName ke).map some
@@ -161,8 +165,8 @@ def stepC18 (st : DriverState) (fields : List String) : Option String :=
         let c : Call Float := { ufunc := f, method := m, inputs := ins, out := out, axisLen := ax, kernelErr := ke,
                                 kernelShape := ksh }
         let o : OutInfo Float := { unit := ou, data := odata, floatDtype := fd,
-                                   promotable := (npDtype N .f fd.size).toOption.isSome }
-        let r := inplaceUfunc C18.fixupReenters (ctx st) o fuel c
+                                   promotable := (npDtype N .f fd.size).toOption.isSome, writeable := ow }
+        let r := inplaceUfunc C18.fixupReenters liveFlags.outRoGuard (ctx st) o fuel c
         let u0 : UnitV Float := match ou with | some u => u.v | none => UnitV.dimensionless
         let d0 : Dtype := ⟨(match odata.kind with | .i => .i | .u => .u | .c => .c | .b => .b | _ => .f), odata.itemsize⟩
         some (runLine r 1 u0 d0)
@@ -170,7 +174,7 @@ def stepC18 (st : DriverState) (fields : List String) : Option String :=
     | _ => none
   | ["c18.simplify", sc, off, dim, co, fac] => do
     let u ← parseUnitV sc off dim co fac
-    let r := unitSimplify st.pre lut u
+    let r := unitSimplify C18.simplifyCopies st.pre lut u
     match r.result with
     | .ok (v, self) => some s!"ok\t{r.effects.length}\t{b01 self}\t{bitsStr v.expr.coeff}\t{Factors.str (UExpr.normF v.expr.factors)}"
     | .error e => some s!"err:{e.str}\t{r.effects.length}"
